@@ -11,3 +11,47 @@ Example C07_nonvacuous :
   /\ show (snakify (s_ "HTTPServer2Go_x")) = "http_server_2_go_x"
   /\ map show (spec_words (s_ "HTTPServer2Go_x")) = ["HTTP"; "Server2"; "Go"; "x"].
 Proof. repeat (split; [vm_compute; reflexivity|]). vm_compute; reflexivity. Qed.
+
+(* the same for an identifier outside ASCII, `ÉlanİVital9`, in the Unicode-parametric model: the character table is the one
+   harness/genprobe `chartab` printed from Rust's `char` methods, the expected values are what the REAL convert_case / snakify
+   return (İ = U+0130 lower-cases to two scalar values, so SCREAMING-KEBAB-CASE is not the upper-casing of the words) *)
+Require Import Strum.Spec.StatementsU.
+Local Open Scope N_scope.
+Definition C07u_example_table : list uentry :=
+  let mk := fun cp lo up al l u => {| e_cp := cp; e_lower := lo; e_upper := up; e_alnum := al; e_lo := l; e_up := u |} in
+  [mk 32 false false false [32] [32];
+   mk 45 false false false [45] [45];
+   mk 57 false false true [57] [57];
+   mk 65 false true true [97] [65];
+   mk 73 false true true [105] [73];
+   mk 76 false true true [108] [76];
+   mk 78 false true true [110] [78];
+   mk 84 false true true [116] [84];
+   mk 86 false true true [118] [86];
+   mk 95 false false false [95] [95];
+   mk 97 true false true [97] [65];
+   mk 105 true false true [105] [73];
+   mk 108 true false true [108] [76];
+   mk 110 true false true [110] [78];
+   mk 116 true false true [116] [84];
+   mk 118 true false true [118] [86];
+   mk 201 false true true [233] [201];
+   mk 233 true false true [233] [201];
+   mk 304 false true true [105; 775] [304];
+   mk 775 false false false [775] [775]].
+Example C07u_nonvacuous :
+  let id := [201; 108; 97; 110; 304; 86; 105; 116; 97; 108; 57] in
+  let U := ucd_of_table C07u_example_table in
+  table_disjoint C07u_example_table = true /\ table_closed C07u_example_table id = true /\ sigma_free id = true /\
+  lower_upper_disjoint U /\
+  uconvert_case U (Some SnakeCase) id = [233; 108; 97; 110; 95; 105; 775; 95; 118; 105; 116; 97; 108; 57] /\
+  uconvert_case U (Some CamelCase) id = [233; 108; 97; 110; 304; 86; 105; 116; 97; 108; 57] /\
+  uconvert_case U (Some ScreamingKebabCase) id = [201; 76; 65; 78; 45; 73; 775; 45; 86; 73; 84; 65; 76; 57] /\
+  usnakify U id = [233; 108; 97; 110; 95; 105; 775; 95; 118; 105; 116; 97; 108; 95; 57] /\
+  uspec_words U id = [[201; 108; 97; 110]; [304]; [86; 105; 116; 97; 108; 57]].
+Proof.
+  cbv zeta. repeat (split; [vm_compute; reflexivity|]).
+  split; [apply C07u_table_disjoint_proof; vm_compute; reflexivity|].
+  repeat (split; [vm_compute; reflexivity|]). vm_compute; reflexivity.
+Qed.
+Print Assumptions C07u_nonvacuous.
